@@ -94,6 +94,32 @@ def _raises_unless(g, fn, rs_call, loop) -> bool:
     return ok_a and ok_b
 
 
+def _converged_before_return(g, fn, rs_call) -> bool:
+    rs_node = g.node_of(rs_call)
+    if rs_node is None:
+        return False
+    conv = [q for q in g.nodes if g.kind.get(q) == "test" and has(q, "__r.converged".replace("__r", _result_name(fn, rs_call) or "__none__"))]
+    for q in conv:
+        pol = not (isinstance(q, ast.UnaryOp) and isinstance(q.op, ast.Not))      # polarity on which the result is converged
+        if g.must_pass(rs_node, CFG.EXIT, lambda z: z is q) and not g.reaches(g.branch(q, not pol), CFG.EXIT):
+            return True
+    return False
+
+
+def _helper_returns_only_on_sign_change(g, helper, loop, fn_name: str) -> bool:
+    """the scanning helper returns a temperature only from the branch on which the sign of the scanned function differs from its sign at the
+    start; every other way out raises"""
+    if loop is None:
+        return False
+    sign_tests = [t for t in g.nodes if g.kind.get(t) == "test" and isinstance(t, ast.Compare) and has(t, "np.sign") and isinstance(t.ops[0], (ast.NotEq, ast.Eq))
+                  and any(isinstance(c_, ast.Call) and isinstance(c_.func, ast.Name) and c_.func.id == fn_name for c_ in ast.walk(t))]
+    if len(sign_tests) != 1:
+        return False
+    t = sign_tests[0]
+    pol = isinstance(t.ops[0], ast.NotEq)
+    return g.must_pass(CFG.ENTRY, CFG.EXIT, lambda q: q is t) and not g.reaches(g.branch(t, not pol), CFG.EXIT, avoid=lambda q: q is t)
+
+
 def _result_name(fn, call):
     for st in own_nodes(fn.node):
         if isinstance(st, ast.Assign) and st.value is call and isinstance(st.targets[0], ast.Name):
@@ -146,7 +172,7 @@ def rules(chk: Check) -> None:
     wl = [w for w in own_nodes(fi.node) if isinstance(w, ast.While) and any(y is steps[0] for y in ast.walk(w))]
     in_loop = {id(y) for w in wl for y in ast.walk(w)}
     size_tests = [t for t in g.nodes if g.kind.get(t) == "test" and id(t) in in_loop
-                  and any(isinstance(c_, ast.Compare) and has(c_, f"{ODE}.step_size") for c_ in ast.walk(t))]
+                  and any(isinstance(c_, ast.Compare) and has(c_, f"{ODE}.step_size") for c_ in ast.walk(cx.resolve(t)))]
     ok = len(spin_tests) == 1 and all(g.must_pass(steps[0], a, lambda q: q in spin_tests) for a in APP)
     chk.ob("R11.1", fi.where(), "every path from ode.step() to the recording of a point passes the spinodal test", ok, key="spinodal-before-record")
     # the branch of the test on which the eigenvalue is <= 0 never reaches a recording
@@ -250,13 +276,13 @@ def rules(chk: Check) -> None:
     # the joined list of temperatures: the argument of min(...) in the stored lower end
     TF = None
     if "self.minPossibleTemperature[0]" in stores:
-        b = match(stores["self.minPossibleTemperature[0]"][0], "min(__TF) + 2 * dT")
+        b = match(stores["self.minPossibleTemperature[0]"][0], "min(__TF) + 2 * dT", cx)
         TF = b["TF"] if b else None
-    ok = TF is not None and "self.maxPossibleTemperature[0]" in stores and eqx(stores["self.maxPossibleTemperature[0]"][0], f"max({TF}) - 2 * dT")
+    ok = TF is not None and "self.maxPossibleTemperature[0]" in stores and eqx(stores["self.maxPossibleTemperature[0]"][0], f"max({TF}) - 2 * dT", cx)
     chk.ob("R11.3", fi.where(), "usable range = [min(T) + 2 dT, max(T) - 2 dT] of the tabulated temperatures (documented safety margin)", bool(ok), key="margin")
     TF = TF or "TFullList"
     lo, hi = stores.get("self.minPossibleTemperature[1]", (None, None)), stores.get("self.maxPossibleTemperature[1]", (None, None))
-    ok = lo[1] is not None and hi[1] is not None and eqx(lo[1], f"min({TF}) > TMin") and eqx(lo[0], "True") and eqx(hi[1], f"max({TF}) < TMax") and eqx(hi[0], "True")
+    ok = lo[1] is not None and hi[1] is not None and eqx(lo[1], f"min({TF}) > TMin", cx) and eqx(lo[0], "True") and eqx(hi[1], f"max({TF}) < TMax", cx) and eqx(hi[0], "True")
     chk.ob("R11.3", fi.where(), "an end is flagged as a genuine end of the phase only when the table stops short of the requested range on that side", ok,
            str({k: n(v[1]) if v[1] is not None else "" for k, v in stores.items()}), key="flags")
     clip = {st.targets[0].id: st.value for st in own_nodes(fi.node) if isinstance(st, ast.Assign) and isinstance(st.targets[0], ast.Name) and st.targets[0].id in ("TMin", "TMax")}
@@ -295,23 +321,73 @@ def rules(chk: Check) -> None:
     rets = [r for r in own_nodes(fd.node) if isinstance(r, ast.Return)]
     ok = len(rets) == 1 and len(prm) == 1 and has(rets[0].value, f"self.freeEnergyLow({prm[0]}).veffValue - self.freeEnergyHigh({prm[0]}).veffValue", cd)
     chk.ob("R11.4", fd.where(), "the scanned function is F_low(T) - F_high(T)", ok, n(rets[0].value) if rets else "", key="difference")
+    # the coarse scan: a `while` in findCriticalTemperature itself, or in a helper that receives the scanned function
+    sf, bind, scan_call = fc, {}, None          # function holding the loop, helper parameter -> caller expression, the call
     loop = [x for x in own_nodes(fc.node) if isinstance(x, ast.While)]
+    if not loop:
+        for c in own_nodes(fc.node):
+            if not isinstance(c, ast.Call) or c is rs[0]:
+                continue
+            if not any(isinstance(a_, ast.Name) and a_.id == DIFF for a_ in list(c.args) + [k.value for k in c.keywords]):
+                continue
+            short = c.func.attr if isinstance(c.func, ast.Attribute) else (c.func.id if isinstance(c.func, ast.Name) else None)
+            cand = S.modules[fc.module].funcs.get(f"{fc.cls}.{short}") or S.modules[fc.module].funcs.get(f"{fc.qual}.{short}") or S.modules[fc.module].funcs.get(short or "")
+            if cand is None or not any(isinstance(x, ast.While) for x in own_nodes(cand.node)):
+                continue
+            ps = [a_.arg for a_ in cand.node.args.args]
+            deco = {ast.unparse(d_) for d_ in cand.node.decorator_list}
+            if cand.cls and "staticmethod" not in deco and cand.parent is None and ps:
+                ps = ps[1:]
+            bind = dict(zip(ps, c.args))
+            bind.update({k.arg: k.value for k in c.keywords if k.arg})
+            sf, scan_call = cand, c
+            loop = [x for x in own_nodes(cand.node) if isinstance(x, ast.While)]
+            chk.touch(cand.name)
+            break
+    cs_ = Ctx(S, sf)
+
+    def caller_expr(e):
+        """expression of the scanning function in terms of findCriticalTemperature's names"""
+        e = cs_.resolve(e) if sf is not fc else e
+        if bind:
+            from ..nf import _subst
+            e = _subst(e, bind)
+        return e
+
     ok = False
     Tn_, St_ = "T", "TStep"
+    fn_name = DIFF if sf is fc else next((p_ for p_, v_ in bind.items() if isinstance(v_, ast.Name) and v_.id == DIFF), DIFF)
     if len(loop) == 1:
-        b = match(loop[0].test, "__T - __S > TMin")
+        b = match(loop[0].test, "__T - __S > __E")
         if b:
-            Tn_, St_ = b["T"], b["S"]
-            pre = {st.targets[0].id: st.value for st in own_nodes(fc.node) if isinstance(st, ast.Assign) and isinstance(st.targets[0], ast.Name)
+            Tn_, St_, En_ = b["T"], b["S"], b["E"]
+            pre = {st.targets[0].id: st.value for st in own_nodes(sf.node) if isinstance(st, ast.Assign) and isinstance(st.targets[0], ast.Name)
                    and st.lineno < loop[0].lineno and st.targets[0].id in (Tn_, St_)}
-            ok = eqx(pre.get(Tn_), "TMax") and eqx(pre.get(St_), "dT") and \
+            start = caller_expr(pre[Tn_]) if Tn_ in pre else None
+            step = caller_expr(pre[St_] if St_ in pre else ast.Name(id=St_, ctx=ast.Load()))
+            end = caller_expr(ast.Name(id=En_, ctx=ast.Load()))
+            ok = eqx(start, "TMax", cc) and eqx(step, "dT", cc) and eqx(end, "TMin", cc) and \
                 any(eqx(s_, f"{Tn_} -= {St_}") or eqx(s_, f"{Tn_} = {Tn_} - {St_}") for s_ in loop[0].body)
-    chk.ob("R11.4", fc.where(), "the coarse scan starts at TMax and steps downward by dT while staying above TMin", ok, key="scan")
-    ok = eqx(kwarg(rs[0], "bracket"), f"({Tn_}, {Tn_} + {St_})") or eqx(kwarg(rs[0], "bracket"), f"[{Tn_}, {Tn_} + {St_}]")
+    chk.ob("R11.4", sf.where(), "the coarse scan starts at TMax and steps downward by dT while staying above TMin", ok, key="scan")
+    # refinement bracket [Tc, Tc + step]: Tc is the scan variable (or the value the scanning helper returned), step the scan step
+    br = kwarg(rs[0], "bracket")
+    ok = False
+    if isinstance(br, (ast.Tuple, ast.List)) and len(br.elts) == 2 and isinstance(br.elts[0], ast.Name):
+        Tc = br.elts[0].id
+        if sf is fc:
+            okT = Tc == Tn_
+            stepc = ast.Name(id=St_, ctx=ast.Load())
+        else:
+            okT = any(isinstance(st, ast.Assign) and st.value is scan_call and n(st.targets[0]) == Tc for st in own_nodes(fc.node))
+            stepc = bind.get(St_) if St_ in bind else None
+        ok = okT and stepc is not None and eqx(br.elts[1], f"{Tc} + {n(stepc)}", cc)
     chk.ob("R11.4", fc.where(), "the crossing is refined by a bracketed root on the last step [T, T + dT]", ok, key="refine")
-    # every path on which the scan loop ends without a sign change, or the refinement reports non-convergence, ends in a raise
+    # every path on which the scan ends without a sign change, or the refinement reports non-convergence, ends in a raise
     gc = CFG(fc.node)
-    ok = _raises_unless(gc, fc, rs[0], loop[0] if loop else None)
+    if sf is fc:
+        ok = _raises_unless(gc, fc, rs[0], loop[0] if loop else None)
+    else:
+        ok = _helper_returns_only_on_sign_change(CFG(sf.node), sf, loop[0] if loop else None, fn_name) and _converged_before_return(gc, fc, rs[0])
     chk.ob("R11.4", fc.where(), "no sign change, or a non-converged refinement, raises instead of returning a temperature", ok, key="raises")
     tr = [c for c in calls_in(fc.node, "tracePhase")]
     ok = len(tr) == 2 and all(kwarg(c, "spinodal") is not None and n(kwarg(c, "spinodal")) == "True" for c in tr)
